@@ -130,19 +130,21 @@ def _c09(name, lens, tier, numprop=3, entry='h_ingest64', what='MeshGL64'):
                 targets=['Manifold::Impl::Impl<%s>(MeshGLP)' % ('double,uint64_t' if what == 'MeshGL64' else 'float,uint32_t'), 'MeshGLP::NumVert/NumTri/Backside/HasNormals', 'Manifold::Impl::MakeEmpty', 'Vec<T>', 'std::map insert (modelled tree)'])
 PROPERTIES['C09'] = {
   'level_text': 'Bounded model checking of the real MeshGL ingest ladder on arbitrary input structures: for each of a table of vector-length configurations (valid and invalid shapes around every length relation the ladder checks) and with numProp, tolerance and ALL contents arbitrary, the constructor performs no out-of-bounds access, division by zero, signed overflow, out-of-range float->int conversion or throw before handing over to halfedge construction, and early returns are empty with an error status. Right level: malformed-input defects are single unvalidated index/length relations, which the solver finds by construction (two were found and repaired).',
-  'level_note': 'One query per length configuration (symbolic-length heap blocks make CBMC fall back to array theory and run out of memory); 4 vertices x 3 properties, 4 triangles. Everything from CreateHalfedges on is cut (the success path ends there); ReserveIDs returns an arbitrary id; std::map via models/rbtree.h (unbalanced BST). Allocation failure is out of scope. Numeric argument guards: see C17 circular_segments. OBJ text, polygon/point-set inputs and status propagation through manifold.cpp are outside.',
+  'level_note': 'One query per length configuration (symbolic-length heap blocks make CBMC fall back to array theory and run out of memory); 4 vertices x 3 properties, 4 triangles. Everything from CreateHalfedges on is cut (the success path ends there); the id counter meshIDCounter_ starts from an arbitrary value < 10^6 (ReserveIDs itself is inlined real code); std::map via models/rbtree.h (unbalanced BST). Allocation failure is out of scope. Numeric argument guards: see C17 circular_segments. OBJ text, polygon/point-set inputs and status propagation through manifold.cpp are outside.',
   'obligations': [_c09('ingest64_' + n, l, t, np) for n, l, t, np in _C09_CFG] + [
       _c09('ingest32_runs_3_2_full', (12, 12, 0, 0, 3, 2, 24, 2, 4, 0), 't', 3, entry='h_ingest32', what='MeshGL'),
       _c09('ingest32_anyprop_small', (4, 3, 1, 1, 1, 1, 12, 1, 1, 4), 'q', None, entry='h_ingest32', what='MeshGL'),
     ] + [
       dict(_c09('handoff%s_%s' % (bits, n), l, t, np, entry='h_ingest%s' % bits, what='MeshGL64' if bits == '64' else 'MeshGL'),
-           cuts=[], defs=dict(_c09('x', l, t, np)['defs'], VF_HANDOFF=1), redirect=dict(_INGEST_REDIR, **{'_ZN8manifold8Manifold4Impl15CreateHalfedges.*': 'vf_stub_CreateHalfedges'}),
+           cuts=[], defs=dict(_c09('x', l, t, np)['defs'], VF_HANDOFF=1, **({'VF_CONST_TANGENTS': 1} if n == 'tangents' else {})),
+           **({'unwind': {'auto': True, 'start': 5, 'max': 49, 'rounds': 24, 'Rb_tree': 3}} if n == 'tangents' else {}), redirect=dict(_INGEST_REDIR, **{'_ZN8manifold8Manifold4Impl15CreateHalfedges.*': 'vf_stub_CreateHalfedges'}),
            claim='Impl::Impl(%s) SUCCESS path, lengths %s, numProp %s: the state handed to CreateHalfedges satisfies the contract the rest of the library relies on without re-validating: one TriRef per kept triangle with a registered meshID, numProp_ property values per vertex, all triangle indices < NumVert, and a run is marked hasNormals ONLY when there are >= 3 property channels (GetMeshGL / Transform treat slots 0..2 as a vector then)' % ('MeshGL64' if bits == '64' else 'MeshGL', l, ('= %s' % np) if np is not None else 'ARBITRARY'))
       for bits, n, l, t, np in (
         ('64', 'numprop4_flags', (16, 12, 0, 0, 0, 1, 0, 1, 0, 0), 'q', 4),
         ('32', 'numprop4_flags', (16, 12, 0, 0, 0, 1, 0, 1, 0, 0), 'q', 4),
         ('64', 'numprop4_runs2', (16, 12, 0, 0, 3, 2, 24, 2, 4, 0), 't', 4),
         ('64', 'anyprop_flags', (16, 12, 0, 0, 0, 1, 0, 1, 0, 0), 't', None),
+        ('64', 'tangents', (12, 12, 0, 0, 0, 0, 0, 0, 0, 48), 'q', 3),
         ('64', 'runs_3_2_full', (12, 12, 0, 0, 3, 2, 24, 2, 4, 0), 't', 3))
     ] + [
       dict(name='makeempty', harness='c09_ingest.cpp', entry='h_makeempty', defs={'VF_REAL_MAKEEMPTY': 1, 'VF_LENS': '0,0,0,0,0,0,0,0,0,0'}, models=['rbtree.h'], unwind={'default': 7, 'Rb_tree': 3}, recursion={'default': 2}, backends=['minisat'], timeout=900, object_bits=12, mem_gb=16,
@@ -399,6 +401,26 @@ PROPERTIES['C18'] = {
          claim='Impl::IsIndexInBounds(triVerts) <=> every index in [0, NumVert); NumTri/NumEdge/NumVert/NumPropVert/IsEmpty follow the array sizes', bounds='2 triangles, all int indices', targets=['properties.cpp Impl::IsIndexInBounds', 'impl.h counting accessors']),
   ],
 }
+PROPERTIES['C19']['obligations'] += [
+    dict(name='compose_tolerance_floor', harness='c19_compose.cpp', entry='h_compose', real='f16', models=['stdlib.h', 'rbtree.h', 'pthread.h'],
+         redirect={'_ZN8manifold8Manifold4Impl12SortGeometry.*': 'vf_stub_SortGeometry'},
+         unwind={'default': 3}, recursion={'default': 2}, backends=['minisat', 'kissat'], timeout=1500, mem_gb=30, object_bits=12,
+         tiers=['quick', 'thorough'],
+         claim='CsgLeafNode::Compose (disjoint-union fast path) on two children with arbitrary bounding boxes, epsilon <= tolerance, each with or without a pending arbitrary affine transform: the combined Impl handed on satisfies tolerance >= epsilon (the invariant SetTolerance, Simplify and every later SetEpsilon floor rely on)',
+         bounds='2 children with EMPTY meshes (only the epsilon/tolerance/bounding-box bookkeeping of the real function runs; all copy loops have zero trips), all values finite |x| <= 64, IEEE binary16 arithmetic (the property is an order relation between max()/scaled values and does not depend on precision); std::mutex by a sequential lock model',
+         targets=['csg_tree.cpp CsgLeafNode::Compose, CsgLeafNode::GetBoundingBox', 'common.h Box::Transform, Box::Scale, Box::Union'])
+]
+PROPERTIES['C19']['obligations'] += [
+    dict(name='boolean_tolerance_%s' % op.lower(), harness='c19_boolean.cpp', entry='h_boolean_tolerance', defs={'VF_OP': op},
+         models=['rbtree.h', 'stdlib.h', 'hash_pmr.h'],
+         redirect={'_ZN8manifold14ManifoldParamsEv': 'vf_stub_ManifoldParams', '_ZN8manifold8Manifold4Impl8Face2TriE.*': 'vf_stub_Face2Tri'},
+         unwind={'auto': True, 'start': 4, 'max': 32, 'rounds': 24}, recursion={'default': 3}, object_bits=13,
+         backends=['minisat', 'kissat'], timeout=2400, mem_gb=30, tiers=['experimental'],
+         claim='Boolean3::Result(%s): the output Impl handed to Face2Tri has epsilon >= both operands\' epsilon, tolerance >= both operands\' tolerance and tolerance >= epsilon, for every operand epsilon/tolerance with epsilon <= tolerance' % op,
+         bounds='one concrete operand pair (two closed 2-triangle meshes with disjoint boxes: no intersections, the real pipeline from inclusion numbers to Append*Edges runs on concrete data); symbolic: epsilon_ and tolerance_ of both operands (all finite doubles)',
+         targets=['boolean_result.cpp Boolean3::Result (up to Face2Tri), SizeOutput, AppendWholeEdges, DuplicateVerts', 'boolean3.cpp Boolean3::Boolean3 (no-overlap early out)'])
+    for op in ('Add', 'Subtract')
+]
 PROPERTIES['C14']['obligations'] += [
     dict(name='tree2d_query_n%d' % n, harness='c14_tree2d.cpp', entry='h_query', defs={'VF_N': n},
          unwind={'auto': True, 'start': 3, 'max': 80, 'rounds': 24}, recursion={'default': 4}, backends=['minisat', 'kissat'], timeout=1200,
@@ -416,10 +438,10 @@ PROPERTIES['C14']['obligations'] += [
 ]
 PROPERTIES['C18']['obligations'] += [
     dict(name='raycast_axis%d' % ax, harness='c18_raycast.cpp', entry='h_raycast', defs={'VF_AXIS': ax, 'VF_R': 2}, real='f16',
-         models=['stdlib.h'], unwind={'default': 14, 'FindCollision': 3, 'realloc_insert|insertion_sort|introsort|RadixTree|RangeEnd|FindSplit': 3}, recursion={'default': 2}, backends=['kissat', 'minisat'], timeout=2400, mem_gb=24, object_bits=12,
+         models=['stdlib.h'], unwind={'default': 14, 'FindCollision': 3, 'realloc_insert|insertion_sort|introsort': 3, 'RadixTree|RangeEnd|FindSplit': 8}, recursion={'default': 2}, backends=['kissat', 'minisat'], timeout=2400, mem_gb=24, object_bits=12,
          tiers=['experimental'],
          claim='Impl::RayCast on a surface triangle (real Collider, Kernel12<false,true>, t filter, sort): every returned hit names the triangle, has 0<=t<=1 and a position on the segment; in general position (no exact 3D or projected coincidence) there is exactly one hit iff the exact integer orientation tests say the segment properly crosses the triangle, and none otherwise - for both directions of travel',
-         bounds='one lattice triangle in [-2,2]^3 (all 6 halfedge numberings, arbitrary finite normals), segment parallel to axis %d with both ends on the lattice line in [-3,3]; IEEE binary16 arithmetic inside the kernels (rationals met here are separated by >= 1/4)' % ax,
+         bounds='one lattice triangle in [-2,2]^3 (vertex positions symbolic, so both orientations; zero normals: they only break exact ties), segment parallel to axis %d with both ends on the lattice line in [-3,3]; IEEE binary16 arithmetic inside the kernels (rationals met here are separated by >= 1/4)' % ax,
          targets=['boolean3.cpp Impl::RayCast, Kernel12, Kernel11, Kernel02, Shadow01', 'shared.h Intersect, Interpolate, Shadows', 'collider.h Collider, FindCollision'])
     for ax in (0, 1, 2)]
 PROPERTIES['C10']['obligations'] += [
